@@ -56,6 +56,10 @@ def cells(tier, seed):
                 continue
             out.append({"k": "interp", "fmt": fmt, "kind": kind})
     out.append({"k": "sprintf"})
+    for lx in (0, 1, 2):
+        for lmid in (0, 1):
+            for ly in (0, 1):
+                out.append({"k": "interp2", "lx": lx, "lmid": lmid, "ly": ly})
     return out
 
 
@@ -312,6 +316,20 @@ def run(ctx, cell):
             body = (body + fill) if left else (fill + body)
         exp = pre + body + post
         ctx.check(got == exp, key + ":%s:%s:wrong-interpolation" % (fmt, kind), detail)
+        return out
+    if k == "interp2":
+        ctx.reach("interp")
+        x, mid, y = ctx.str("x", cell["lx"]), ctx.str("mid", cell["lmid"]), ctx.str("y", cell["ly"])
+        pre = ctx.str("pre", 1)
+        for ch in list(mid) + list(pre):
+            ctx.assume(b_and(ch != "{", ch != "}"))
+        text = pre + "{x}" + mid + "{y}" + mid + "{x}"
+        out = run_ckl("s(t)", {"t": vstr(text), "x": vstr(x), "y": vstr(y)})
+        detail = lambda: {"template": str(text), "x": str(x), "y": str(y), "got": ctx.plain(out)}
+        if out.kind != "ok":
+            fail_out(ctx, key, out, detail)
+            return out
+        ctx.check(T(out.value) == pre + x + mid + y + mid + x, key + ":placeholders-not-all-interpolated", detail)
         return out
     if k == "sprintf":
         ctx.reach("interp")
